@@ -81,6 +81,7 @@ class Case:
 
     def key(self):
         return {"input": self.src, "data": sorted(self.data), "strict": self.strict, "enable_loop": self.enable_loop,
+                "loop_context": "enabled" if (self.enable_loop or getattr(self.t, "page_enable_loop", False)) else "disabled",
                 "desc": self.desc}
 
 
